@@ -2,6 +2,7 @@ package main
 
 import (
 	"fmt"
+	"os"
 	"go/token"
 	"go/types"
 	"sort"
@@ -71,6 +72,7 @@ type Exec struct {
 	nameTypes     map[string]types.Type
 	kindUsed      bool
 	inSpec        int
+	inlineMemo    map[*ssa.Function]bool
 	jsonSeen      map[int]bool
 	oblFacts      map[int]bool
 	inTypeInv     int
@@ -99,6 +101,7 @@ func NewExec(p *Prog, fn *ssa.Function) *Exec {
 	}
 	x.strLits = map[string]string{}
 	x.ownObjs = map[int]bool{}
+	x.inlineMemo = map[*ssa.Function]bool{}
 	x.jsonSeen = map[int]bool{}
 	x.oblFacts = map[int]bool{}
 	x.invAssumed = map[string]bool{}
@@ -252,6 +255,10 @@ func (x *Exec) assumeExisting(st *State, v Value, t types.Type) {
 			x.addFactRaw(x.tt.Lt(x.tt.UF("birth$", "Int", vv), st.clk))
 		case *types.Slice:
 			x.addFactRaw(x.tt.Lt(x.tt.UF("birth$", "Int", x.sArr(vv)), st.clk))
+		case *types.Interface:
+			if vv.Sort == "Val" {
+				x.assumeValExisting(st, vv)
+			}
 		}
 	case *Agg:
 		switch u := t.Underlying().(type) {
@@ -553,6 +560,13 @@ func (x *Exec) runLoopInv(fr *Frame, L *Loop, ins []edge, spec *LoopSpec) []edge
 		}
 	}
 	lname := fmt.Sprintf("loop%d", L.Ordinal)
+	if os.Getenv("GOVC_DEBUG") != "" {
+		for n, v := range pre.names {
+			if t, ok := v.(*Term); ok {
+				fmt.Fprintf(os.Stderr, "debug %s %s: %s = %s\n", funcKey(fr.fn), lname, n, t)
+			}
+		}
+	}
 	// 1. invariant on entry
 	x.curPC = pre.pc
 	if spec != nil {
@@ -879,4 +893,14 @@ func (x *Exec) mergeReturn(fr *Frame) *retState {
 		delete(m.regs, keys[i])
 	}
 	return &retState{m, vals}
+}
+
+// assumeValExisting: references boxed in a dynamic value refer to existing objects.
+func (x *Exec) assumeValExisting(st *State, v *Term) {
+	tt := x.tt
+	if v.Kind == KLit || v.hasBound {
+		return
+	}
+	x.addFactRaw(tt.Implies(tt.Is("vslice", v), tt.Lt(tt.UF("birth$", "Int", x.sArr(tt.Sel("v-l", "vslice", "Slice", v))), st.clk)))
+	x.addFactRaw(tt.Implies(tt.Is("vptr", v), tt.Lt(tt.UF("birth$", "Int", tt.Sel("v-p", "vptr", "Int", v)), st.clk)))
 }
